@@ -29,6 +29,52 @@ static void cb_key(const void *k) { cb_record((void *)k); }
 static size_t flog2(size_t x) { size_t r = 0; while (x > 1) { x >>= 1; r++; } return r; }
 static size_t cmp_bound(size_t n) { return 2 * flog2(n + 1) + 2; }
 
+/* ---- node identity: every node gets a display id (1, 2, ...) when it is first seen in a dump — exactly one node is
+   allocated per successful add, so this is the allocation order — and keeps it while it stays in the tree.  The dump
+   prints `#id^parent-id` per node (`S` the sentinel, `?` a pointer to no node of the tree); the Lean driver runs the
+   pointer-level model (Model/PTree.lean) alongside, whose ids are its allocation serials, so L3 compares node
+   identity and the parent links. */
+#define TCAP (1u << 16)
+typedef struct { RBNode *p; unsigned long id; unsigned long gen; } TEnt;
+static TEnt ttab[2][TCAP];
+static unsigned long tgen[2], tgen_ctr, tnext_id = 1;
+static int tcur;
+static size_t t_hash(RBNode *p) { return (size_t)((((uintptr_t)p) >> 4) * 2654435761u) & (TCAP - 1); }
+static long t_get(int t, RBNode *p) {
+    for (size_t i = t_hash(p), n = 0; n < TCAP; i = (i + 1) & (TCAP - 1), n++) {
+        TEnt *e = &ttab[t][i];
+        if (e->gen != tgen[t]) return -1;
+        if (e->p == p) return (long)e->id;
+    }
+    return -1;
+}
+static void t_put(int t, RBNode *p, unsigned long id) {
+    for (size_t i = t_hash(p), n = 0; n < TCAP; i = (i + 1) & (TCAP - 1), n++) {
+        TEnt *e = &ttab[t][i];
+        if (e->gen != tgen[t]) { e->p = p; e->id = id; e->gen = tgen[t]; return; }
+        if (e->p == p) return;
+    }
+}
+static void ids_reset(void) { tgen[0] = ++tgen_ctr; tgen[1] = ++tgen_ctr; tnext_id = 1; tcur = 0; }
+static void ids_walk(CC_TreeTable *t, RBNode *n, int nt, int depth) {
+    if (n == t->sentinel || n == NULL || depth > 130) return;
+    long id = t_get(tcur, n);
+    t_put(nt, n, id >= 0 ? (unsigned long)id : tnext_id++);
+    ids_walk(t, n->left, nt, depth + 1); ids_walk(t, n->right, nt, depth + 1);
+}
+static void ids_prepass(CC_TreeTable *t) {
+    if (!tgen_ctr) ids_reset();
+    int nt = 1 - tcur;
+    tgen[nt] = ++tgen_ctr;
+    ids_walk(t, t->root, nt, 0);
+    tcur = nt;
+}
+static void o_id(CC_TreeTable *t, RBNode *p) {
+    if (p == t->sentinel) { o("S"); return; }
+    long id = p ? t_get(tcur, p) : -1;
+    if (id < 0) o("?"); else o("%ld", id);
+}
+
 static const char *walk_msg;
 static void walk_fail(const char *m) { if (!walk_msg) walk_msg = m; }
 static size_t walk_nodes;
@@ -38,7 +84,8 @@ static void dump_node(CC_TreeTable *t, RBNode *n, int depth) {
     if (n == t->sentinel) { o("."); return; }
     if (n == NULL) { o("NULL"); walk_fail("null-link"); return; }
     if (depth > 130) { o("..."); walk_fail("depth"); return; }
-    o("(%c %llu:%llu ", n->color == RB_BLACK ? 'B' : 'R', VAL(n->key), VAL(n->value));
+    o("(%c %llu:%llu#", n->color == RB_BLACK ? 'B' : 'R', VAL(n->key), VAL(n->value));
+    o_id(t, n); o("^"); o_id(t, n->parent); o(" ");
     dump_node(t, n->left, depth + 1); o(" "); dump_node(t, n->right, depth + 1); o(")");
 }
 /* returns the black height of the subtree, computes its height; checks every rule locally */
@@ -77,14 +124,15 @@ static void o_path(CC_TreeTable *t, RBNode *n) {
 }
 static void phys_tree(CC_TreeTable *t, CC_TreeTableIter *it) {
     walk_msg = NULL;
+    ids_prepass(t);
     o("size=%zu cmps=%zu it=", t->size, cmp_calls);
     if (!it) o("-");
     else {
         if (it->current == t->sentinel) o("cur:S"); else if (it->current == NULL) o("cur:N");
-        else if (node_in_tree(t, t->root, it->current, 0)) { o("cur:%llu", VAL(it->current->key)); o_path(t, it->current); }
+        else if (node_in_tree(t, t->root, it->current, 0)) { o("cur:%llu#", VAL(it->current->key)); o_id(t, it->current); o_path(t, it->current); }
         else { o("cur:?"); walk_fail("iter-dangling"); }
         if (it->next == t->sentinel) o(",next:S");
-        else if (node_in_tree(t, t->root, it->next, 0)) { o(",next:%llu", VAL(it->next->key)); o_path(t, it->next); }
+        else if (node_in_tree(t, t->root, it->next, 0)) { o(",next:%llu#", VAL(it->next->key)); o_id(t, it->next); o_path(t, it->next); }
         else { o(",next:?"); walk_fail("iter-dangling"); }
     }
     o(" tree="); dump_node(t, t->root, 0);
